@@ -205,7 +205,7 @@ PROPS = {
     },
     "C05": {
         "modules": ["CambrianModel.Props.C05"],
-        "theorems": ["Cambrian.Props.C05_le", "Cambrian.Props.C05_inflight_seeds_nodup", "Cambrian.Props.C05_unique", "Cambrian.Props.C05_exact"],
+        "theorems": ["Cambrian.Props.C05_le", "Cambrian.Props.C05_inflight_seeds_nodup", "Cambrian.Props.C05_unique", "Cambrian.Props.C05_exact", "Cambrian.Props.C05_config_kept", "Cambrian.Props.C05_config_default"],
         "correspondences": ["ctl", "pop", "run", "proc"],
         "trusted": CTL_TRUST,
         "assumptions": ["float laws used: none"],
